@@ -120,7 +120,28 @@ func smallest(o *out) {
 	}
 }
 
-func run(v *vec, msize uint32, base int64, o *out) {
+var timeouts int
+
+// run executes one vector under a watchdog: an operation that never returns is a finding, not a hang of the check.
+func run(v *vec, msize uint32, base int64, sock bool, o *out) {
+	lo := &out{}
+	done := make(chan struct{})
+	go func() { defer close(done); run1(v, msize, base, sock, lo) }()
+	select {
+	case <-done:
+		o.Cases += lo.Cases
+		o.Findings = append(o.Findings, lo.Findings...)
+		if len(o.Samples) < 2 {
+			o.Samples = append(o.Samples, lo.Samples...)
+		}
+	case <-time.After(8 * time.Second):
+		timeouts++
+		o.Cases++
+		o.Findings = append(o.Findings, fmt.Sprintf("%s (abstract chunk %d len %d, requests %v) at msize %d offset %d, sockets %v: the operation did not return within 8 s", v.Kind, v.Chunk, v.Len, v.Calls, msize, base, sock))
+	}
+}
+
+func run1(v *vec, msize uint32, base int64, sock bool, o *out) {
 	o.Cases++
 	auto := puppet.NewAuto()
 	defer auto.Stop()
@@ -187,14 +208,30 @@ func run(v *vec, msize uint32, base int64, o *out) {
 		return puppet.Result{Res: "ok", N: nreal}, true
 	}
 	srv := p9.NewServer(&puppet.Attacher{C: auto.C})
-	a, b := peer.NewDuplexPair()
-	go srv.Handle(b, b)
-	cl, err := p9.NewClient(a, p9.WithMessageSize(msize))
+	var cl *p9.Client
+	var err error
+	via := ""
+	if sock {
+		// real sockets (the vectored receive path) with every frame arriving in pieces
+		via = " over dribbling unix sockets"
+		d, derr := peer.NewDribble()
+		if derr != nil {
+			o.Findings = append(o.Findings, "socketpair: "+derr.Error())
+			return
+		}
+		defer d.Close()
+		go srv.Handle(d.B, d.B)
+		cl, err = p9.NewClient(d.A, p9.WithMessageSize(msize))
+	} else {
+		a, b := peer.NewDuplexPair()
+		go srv.Handle(b, b)
+		cl, err = p9.NewClient(a, p9.WithMessageSize(msize))
+		defer a.Close()
+	}
 	if err != nil {
 		o.Findings = append(o.Findings, "NewClient: "+err.Error())
 		return
 	}
-	defer a.Close()
 	root, err := cl.Attach("")
 	if err != nil {
 		o.Findings = append(o.Findings, "attach: "+err.Error())
@@ -230,7 +267,7 @@ func run(v *vec, msize uint32, base int64, o *out) {
 	}
 	mu.Lock()
 	defer mu.Unlock()
-	desc := fmt.Sprintf("%s len %d at offset %d, payload %d (abstract: chunk %d len %d, requests %v)", v.Kind, n, base, payload, v.Chunk, v.Len, v.Calls)
+	desc := fmt.Sprintf("%s len %d at offset %d, payload %d%s (abstract: chunk %d len %d, requests %v)", v.Kind, n, base, payload, via, v.Chunk, v.Len, v.Calls)
 	if len(problems) > 0 {
 		o.Findings = append(o.Findings, desc+": "+problems[0])
 		return
@@ -350,10 +387,19 @@ func main() {
 				if pl := int(ms) - 153; pl < 3 && v.Chunk != pl {
 					continue
 				}
-				run(&v, ms, off, o)
+				run(&v, ms, off, false, o)
 			}
 		}
-		if len(o.Findings) > 30 {
+		// every vector once more over real sockets, frames arriving in pieces (4249 in the quick tier,
+		// alternating with 65689 in the full one)
+		if pl := 4249 - 153; v.Chunk <= pl {
+			ms := uint32(4249)
+			if *full && i%2 == 0 {
+				ms = 65689
+			}
+			run(&v, ms, offsets[i%len(offsets)], true, o)
+		}
+		if len(o.Findings) > 30 || timeouts >= 3 {
 			break
 		}
 	}
